@@ -32,6 +32,8 @@ func runC05(c *Check, tier string) {
 	// the command's exit status reaches the Go side
 	ruleWrapperStatus(c, "R05k")
 	ruleRerunFailureFailsDependant(c, "R05l")
+	// every descendant of a failed target is cancelled: the list is the whole reachable set
+	ruleReachableListUnfiltered(c, "R05n")
 	// a target that failed (also by timeout) is recorded as failed: the routine reports every outcome but cancellation
 	if w := findWalker(c, "R05h"); w != nil {
 		shareRule(c, "R05h", "after the callback returned the node routine reports a completion on every path unless the walk's own context is done (same obligation as R04c)", 1, "R04c", func(sub *Check) { ruleR04c(sub, w) }, func(k string) bool { return strings.Contains(k, "completion-on-every-exit") })
